@@ -22,7 +22,7 @@ func binDir() string {
 	if d := os.Getenv("VERIF_BIN"); d != "" {
 		return d
 	}
-	return "/verif/bin"
+	return filepath.Join(h.Root, "bin")
 }
 
 func runTool(name string, env []string, args ...string) (stdout, stderr string, code int) {
